@@ -18,8 +18,16 @@ Definition gerr_wf (e : gerr) : Prop := eof_ident e = true -> is_eof e = true /\
 (* &MalformedFileError{Err: e}; Unwrap keeps errors.Is(_, io.EOF) *)
 Definition wrap_mal (e : gerr) : gerr := GE (is_eof e) false true (gid e).
 
-(* filterContentReader.Read *)
+(* filterContentReader.Read: only io.EOF itself is the end of the data *)
 Definition content_read (e : option gerr) : option gerr :=
+  match e with
+  | None => None
+  | Some x => if negb (eof_ident x) && negb (is_mal x) then Some (wrap_mal x) else Some x
+  end.
+
+(* the same before commit c59f855, which tested errors.Is(err, io.EOF): kept to state what
+   that repair removed *)
+Definition content_read_errors_is (e : option gerr) : option gerr :=
   match e with
   | None => None
   | Some x => if negb (is_eof x) && negb (is_mal x) then Some (wrap_mal x) else Some x
@@ -35,7 +43,7 @@ Definition as_malformed (e : option gerr) : option gerr :=
 (* sourceErrChecker.Read: sticky first non-EOF error of the byte source *)
 Definition src_record (sticky : option gerr) (e : option gerr) : option gerr :=
   match sticky, e with
-  | None, Some x => if is_eof x then None else Some x
+  | None, Some x => if eof_ident x then None else Some x
   | _, _ => sticky
   end.
 
@@ -76,4 +84,4 @@ Definition construct (evs : list (option gerr)) (e : option gerr) : option gerr 
 
 (* the non-EOF errors the byte source itself returned *)
 Definition source_failed_with (cs : list (list (option gerr))) (e : gerr) : Prop :=
-  exists evs, In evs cs /\ In (Some e) evs /\ is_eof e = false.
+  exists evs, In evs cs /\ In (Some e) evs /\ eof_ident e = false.
